@@ -184,11 +184,12 @@ func decodeTimeout(s string) (time.Duration, error) {
 	if d == 0 {
 		return 0, fmt.Errorf("transport: timeout unit is not recognized: %q", s)
 	}
-	t, err := strconv.ParseInt(s[:size-1], 10, 64)
+	// The value is 1 to 8 digits, a sign is not allowed.
+	t, err := strconv.ParseUint(s[:size-1], 10, 63)
 	if err != nil {
 		return 0, err
 	}
-	const maxHours = math.MaxInt64 / int64(time.Hour)
+	const maxHours = math.MaxInt64 / uint64(time.Hour)
 	if d == time.Hour && t > maxHours {
 		// This timeout would overflow math.MaxInt64; clamp it.
 		return time.Duration(math.MaxInt64), nil
